@@ -29,6 +29,9 @@ class ServicesManager:
         # so we need to introduce a lock to ensure the access to the dictionary is concurrent safe.
         self._access_dict_lock = asyncio.Lock()
         self._service_dict = {}
+        # One lock per sid, held from the moment a connection becomes the active one until it has been
+        # closed and cleaned up, so that connections for the same service are served strictly one after another.
+        self._sid_locks = {}
 
     async def create_service(self, sid: str, websocket: WebSocketServerProtocol):
         short_sid = shorten_sid(sid)  # shorten sid for display and log
@@ -37,8 +40,8 @@ class ServicesManager:
         # a new service created with the same sid just to send init or control messages will not affect the database.
         service = Service(sid, websocket)
 
-        if sid in self._service_dict:
-            prev_server = self._service_dict[sid]
+        sid_lock = self._sid_locks.setdefault(sid, asyncio.Lock())
+        if sid_lock.locked():
             reason = f"Service {short_sid} is already running, we need to wait for the previous connection to close..."
             logger.warning(reason)
             # In the previous practice, if the previous connection was not closed,
@@ -46,13 +49,22 @@ class ServicesManager:
             # So we need to send a control message to the client to tell it
             # to wait for the previous connection to close.
             service.send_message(MsgType.CONTROL, reason.encode('utf8'))
-            await prev_server.wait_closed()  # wait for the previous socket to close
 
-        async with self._access_dict_lock:
-            self._service_dict[sid] = service
-        clean_task = asyncio.create_task(self.clean_service_when_close_connection(sid, websocket))
-        await service.start()  # run forever! do not use asyncio.create_task
-        await clean_task
+        # wait until every earlier connection of this service is closed and cleaned up
+        async with sid_lock:
+            # an earlier connection may have changed the persisted state while this one was waiting
+            service.reload_persisted_state()
+            async with self._access_dict_lock:
+                self._service_dict[sid] = service
+            clean_task = asyncio.create_task(self.clean_service_when_close_connection(sid, websocket))
+            try:
+                await service.start()  # run forever! do not use asyncio.create_task
+            except Exception:
+                # close the connection now, so that the cleanup can finish before the next connection is served
+                await websocket.close(1011)
+                raise
+            finally:
+                await clean_task
 
     async def clean_service_when_close_connection(self, sid: str, websocket: WebSocketServerProtocol):
         await websocket.wait_closed()
